@@ -56,3 +56,67 @@ fn c04_q_chunk_header_any() {
     core::mem::forget(r);
 }
 
+
+/// every field of the frame header symbolic (byte count, magic, both chunk counts, duration), with the chunk list
+/// reading cut away (Chunk::read_all stubbed to an empty list; it is decided by c04_q_read_all_any_count): parse_frame's
+/// own code returns a value for every header -- in particular for byte counts below 16
+#[kani::proof]
+#[kani::unwind(4)]
+#[kani::stub(alloc::fmt::format, crate::vklib::empty_format)]
+#[kani::stub(std::hash::RandomState::new, crate::vklib::fixed_random_state)]
+#[kani::stub(crate::parse::Chunk::read_all, crate::parse::vk_c04p::stub_read_all_none)]
+fn c04_q_frame_header_fields_any() {
+    let h: [u8; 16] = kani::any();
+    let mut reader = AseReader::with(&h[..]);
+    let mut info = ParseInfo::new(1, 100);
+    let r = parse_frame(&mut reader, 0, PixelFormat::Rgba, &mut info);
+    assert!(r.is_ok() == (rd16(&h, 4) == 0xF1FA), "only a wrong magic makes the header itself fail");
+    if r.is_ok() {
+        assert!(info.frame_times[0] == rd16(&h, 8));
+    }
+    kani::cover!(rd32(&h, 0) == 3 && r.is_ok());
+    kani::cover!(rd32(&h, 12) == 0xffff_ffff && r.is_ok());
+    core::mem::forget(r);
+    core::mem::forget(info);
+}
+pub(crate) fn stub_read_all_none<R: Read>(_count: u32, _bytes_available: i64, _reader: &mut AseReader<R>) -> Result<Vec<Chunk>> {
+    Ok(Vec::new())
+}
+
+/// the chunk list reader with ANY declared count and ANY byte budget over an input that holds no chunk: Ok(empty) for
+/// count 0, an error value otherwise -- never a panic, never a long loop
+#[kani::proof]
+#[kani::unwind(4)]
+#[kani::stub(alloc::fmt::format, crate::vklib::empty_format)]
+fn c04_q_read_all_any_count() {
+    let count: u32 = kani::any();
+    let budget: i64 = kani::any();
+    let tail: [u8; 3] = kani::any();
+    let mut reader = AseReader::with(&tail[..]);
+    let r = Chunk::read_all(count, budget, &mut reader);
+    match &r {
+        Ok(v) => assert!(count == 0 && v.is_empty()),
+        Err(_) => assert!(count > 0, "declared chunks that are not there are an error value"),
+    }
+    kani::cover!(count == u32::MAX);
+    kani::cover!(count == 0 && budget < 0);
+    core::mem::forget(r);
+}
+
+/// C12: the chunk list reader reserves nothing from the declared chunk count / frame byte count
+#[kani::proof]
+#[kani::unwind(4)]
+#[kani::stub(alloc::fmt::format, crate::vklib::empty_format)]
+#[kani::stub(std::vec::Vec::with_capacity, crate::vklib::checking_with_capacity_nostop)]
+fn c12_q_read_all_declared_count() {
+    let count: u32 = kani::any();
+    let budget: i64 = kani::any();
+    let tail: [u8; 3] = kani::any();
+    unsafe {
+        crate::vklib::C12_INPUT_LEN = 19;
+    }
+    let mut reader = AseReader::with(&tail[..]);
+    let r = Chunk::read_all(count, budget, &mut reader);
+    kani::cover!(count == u32::MAX && budget == 0xffff_ffff);
+    core::mem::forget(r);
+}
